@@ -404,5 +404,8 @@ PROPS["C20"]["explanation"] += " (REFUSEFIRST) SDcreate compares the request wit
 PROPS["C13"]["rules"] = PROPS["C13"]["rules"] + [rules_handles.rule_table_bound_reset]
 PROPS["C13"]["explanation"] += " (TABLEFREE) a routine that releases an id-indexed global table also resets the count that bounds the ids."
 
+PROPS["C14"]["rules"] = PROPS["C14"]["rules"] + [rules_access.rule_close_version_guard]
+PROPS["C14"]["explanation"] += " (CLOSEVER) the version element is brought up to date at close only under a test of write access, so a read-only file without a version element can be closed."
+
 NOT_APPLICABLE = {}
 
